@@ -3,6 +3,9 @@ import RawPanelVerif.Lemmas.TotalOut
 import RawPanelVerif.Props.C04
 import RawPanelVerif.Props.C05
 import RawPanelVerif.Gen.Shared
+import RawPanelVerif.Gen.Reader
+import RawPanelVerif.Lemmas.GfxTotal
+import RawPanelVerif.Lemmas.GfxModels
 /-!
 # C06 — Converters and streaming reader are total and re-entrant
 
@@ -13,17 +16,58 @@ code, not artefacts of totalised definitions:
 
 * `encIn_total`, `decIn_total`, `decIn_no_nil_message`  — inbound encoder / decoder (Lemmas/TotalIn.lean)
 * `encOut_total`, `decOut_total`, `decOut_no_nil_message` — outbound encoder / decoder (Lemmas/TotalOut.lean)
-* the streaming reader `ASCIIreader.Parse` is, in the C05 model (`Gfx.Stream`), a total function that either buffers the
-  line or hands lines to the batch decoder, whose totality is `decIn_total`; `C05.never_altered` and the clean-run
-  theorems cover its behaviour.
+* `parse_total`, `parse_session_total` — the streaming reader `ASCIIreader.Parse` in a panic-carrying model of its own
+  (`Model/GfxE.lean: Stream.parseE`: the regular expression's sub-matches are a list indexed with `sub` in `Except Panic`,
+  the hand-over calls the panic-carrying batch decoder `decInE`): for every reader state (any field values, e.g. restored
+  from an arbitrary JSON document), every input string and any `encoding/json` results it returns, without panic and
+  without a nil message; likewise a whole session of any length.  The batch decoder's totality is `decIn_total`.
+* `batch_models_agree`, `parse_models_agree` — ONE function: the panic-carrying inbound decoder (`Model/DecIn.lean`, the
+  subject of `decIn_total`, of C01/C02's soundness theorems) and the C05 model of the same Go function
+  (`Gfx.Batch.decode Batch.step`, the subject of C05's safety / clean-run theorems) were written independently (two
+  matchers for `regex_gfx`, two readings of `strconv.Atoi`, two base64 decoders, image objects by value vs in a store).
+  They return the same messages on EVERY line sequence; likewise the panic-carrying `Parse` and C05's `Stream.parse`
+  (same reader state, same messages, at every call, from every state).  Lemmas/GfxModels.lean: `matchers_agree`,
+  `atoiV_digits`, `b64_same` (every text, error or not), `gstep_sim`.
+* "no hang": the Lean models are structural recursions over the input lists; for the Go code `loops_are_bounded` states,
+  over a table regenerated from the sources on every run (`Gen.converterLoops`: every `for` statement of
+  converterFunctions.go and of the methods of `ASCIIreader`), that every loop is a `range` over a slice / map / string
+  evaluated once (bound: its length at loop entry) or a counted loop `for i := a; i < b; i++` whose counter and bound are
+  not assigned in the body (bound: `b - a`), and that there is no `goto`, `go`, `select`, channel operation or recursion
+  among these functions.  Library calls inside the loops (regexp, strconv, base64, json, proto, fmt) are outside the model.
 * `encInPinned_panics_counterexample`, `decInPinned_nil_counterexample`, `raw_case_would_panic` — the pinned tree's
   nil-`TextStyling` dereference, the nil message for `[null]`, and the dead `Raw` case indexing the wrong regex.
 
 **Re-entrancy**.  In the model the five functions are pure, so every interleaving of concurrent calls equals the
 sequential result by construction.  That transfers to the code only if the Go functions share no mutable state:
-* `no_shared_mutable_state` — over the list regenerated from /repo on every run by the extractor: no function body of
-  the three library packages assigns to a package-level variable (the regex tables, fonts and icon tables are only
-  read; `DebugRWPhelpers` is written by callers only and guarded by its mutex where read).
+* `no_shared_mutable_state` (clauses `shared_writes_allowed`, `shared_uses_allowed`, `shared_sink_uses_allowed`,
+  `shared_mutable_vars_known`, `shared_tables_consistent`) — over tables regenerated from the Go sources on every run by
+  the extractor for the four library packages rawpanellib, gorwp, ibeam_lib_monogfx, topology (left out: the
+  protoc-generated ibeam_rawpanel, the C binding rawpanel-lib-c and gorwp/examples, both `package main`):
+  - no function body and no package-level initialiser writes to a package-level variable (assignment, op-assignment,
+    `++`/`--`, range-assignment, `delete`/`clear`; directly or through index / field / dereference);
+  - every other occurrence of a package-level variable that is not a pure read (receiver of a method call, call argument,
+    address taken, alias into a local / field / return value / literal / channel, `copy` or `append` destination, `range`,
+    anything the extractor does not understand) is on a hand-written allow-list: the read-only methods
+    `MatchString` / `FindStringSubmatch` of the compiled regexps, `Lock` / `Unlock` of the debug-dump mutex, the font
+    tables stored into `MonoImg.font` by `SetFont`, the icon tables passed to `MonoImg.DrawBitmap`;
+  - the field / parameter / local a table is handed to is followed by the extractor (to a fixpoint) and may itself only
+    be read (`Gen.sinkUses`: `img.font = …` re-binds the field, `len(bitmap)`; no element write);
+  - every package-level variable whose type is not bool / integer / float / string must be one of the known ones, so a
+    new package-level scratch slice, map, `strings.Builder`, `sync.Map`, … fails the build however it is used.
+  Syntactic (go/ast, no type checker, no tracking of reflection, cgo, linkname or pointer-cast tricks): partial in that sense.
+* `package_vars_known` — the package-level variables are exactly the known tables, regexps, the debug flag and its mutex.
+* the debug flag: `DebugRWPhelpers` (rawpanelhelpers.go:35) is never assigned inside the library; callers set it.  The
+  four converters read it WITHOUT the mutex (`if DebugRWPhelpers {` at converterFunctions.go:633, 946, 1479, 1763; the
+  reader reaches the first of these through the inbound decoder).  `DebugRWPhelpersMU` is locked only inside those
+  branches (634–658, 947–970, 1480–1504, 1764–1789): it serialises the debug dumps of concurrent converter calls, it does
+  not guard the flag.  In the tables the reads are pure reads of a bool and the `Lock`/`Unlock` sites are allow-listed
+  method uses.  ASSUMPTION of the re-entrancy claim: the flag is constant while converters run.  Observed in a throw-away
+  experiment (`go build -race -tags verif`; 8 goroutines × 300 passes through the four converters and the reader, plus
+  one goroutine looping `DebugRWPhelpersMU.Lock(); DebugRWPhelpers = …; DebugRWPhelpersMU.Unlock()` as a caller is
+  supposed to): the race detector reports `DATA RACE` between the toggler's write and the reads at
+  converterFunctions.go:633, 946, 1479 and 1763 (all four sites; exit 66 with `halt_on_error=1`); the same program
+  without the toggler gives no report.  Toggling the flag is not a converter call, so this lies outside C06's statement
+  (concurrent *calls* equal sequential calls); it is recorded here and in the `assumptions` of tools/propcfg/C06.py.
 * the harness runs 4–32 goroutines over shared inputs through all five functions, in-process and in a child built with
   `go build -race`, and compares every result with the sequential one (`conc.run` records; supporting evidence).
 Outside the model: the Go memory model and races inside `regexp`, `encoding/json`, `proto` (partial).
@@ -31,10 +75,155 @@ Outside the model: the Go memory model and races inside `regexp`, `encoding/json
 namespace RawPanelVerif.C06
 open RawPanelVerif
 
-/-- no function body in the three library packages assigns to a package-level variable (regenerated on every run) -/
-theorem no_shared_mutable_state : Gen.packageVarWrites = [] := by decide
+/-! ## the streaming reader never panics -/
 
-/-- the package-level variables that exist are the read-only tables and the debug flag with its mutex -/
+/-- `ASCIIreader.Parse` (panic-carrying model): any reader state, any input, any JSON results — it returns, and no
+returned message is nil -/
+theorem parse_total (O : MsgIn.Oracles) (s : Gfx.RState) (l : Bytes) :
+    ∃ r, Gfx.Stream.parseE O s l = .ok r ∧ ∀ m ∈ r.2, m.isSome = true :=
+  Gfx.parseE_total O s l
+
+/-- a whole streaming session of any length from any reader state -/
+theorem parse_session_total (O : MsgIn.Oracles) (s : Gfx.RState) (ls : List Bytes) :
+    ∃ r, Gfx.Stream.runE O s ls = .ok r ∧ r.2.length = ls.length ∧ ∀ ms ∈ r.2, ∀ m ∈ ms, m.isSome = true :=
+  Gfx.runE_total O ls s
+
+/-- non-vacuity: the panic-carrying reader does deliver (chunk 0 of 0..1, then chunk 1: one message at the second call),
+and an index out of range IS a panic in this model (`sub` on a list that is too short) -/
+example : (Gfx.Stream.runE default {} [C05.Pinned.c0of1, C05.Pinned.c1]).toOption.map (fun r => r.2.map List.length) =
+    some [0, 1] := by decide
+example : Model.In.sub [[1], [2]] 3 = .error .indexRange := rfl
+
+/-! ## the two models of the inbound decoder / of the reader are one function -/
+
+/-- the full inbound decoder model returns, for every line sequence and any JSON results, exactly the messages of the
+C05 model of the same Go function: per delivery a message with the target ids and the image, per non-graphics line what
+the decoder returns for that line alone (`Gfx.otherOut`, the C05 model's "opaque per-line function") -/
+theorem batch_models_agree (O : MsgIn.Oracles) (ls : List Bytes) :
+    Model.In.decInE O ls = .ok (Gfx.expand O (Gfx.Batch.decode Gfx.Batch.step ls)) :=
+  Gfx.batch_models_agree O ls
+
+/-- … and the panic-carrying `Parse` is C05's `Stream.parse`, from every reader state, on every input -/
+theorem parse_models_agree (O : MsgIn.Oracles) (s : Gfx.RState) (l : Bytes) :
+    Gfx.Stream.parseE O s l = .ok ((Gfx.Stream.parse s l).1, Gfx.expand O (Gfx.Stream.parse s l).2) :=
+  Gfx.parseE_agrees O s l
+
+/-- non-vacuity: on a history with a delivery both sides are a one-message list -/
+example : (Gfx.expand default (Gfx.Batch.decode Gfx.Batch.step [C05.Pinned.c0of1, C05.Pinned.c1])).length = 1 := by
+  decide
+
+/-! ## loop bounds of the Go code (regenerated table) -/
+
+/-- every `for` statement of the converters and of the streaming reader is a `range` loop or a counted loop whose
+counter and bound the body does not assign; no goto / go / select / channel operation / recursion -/
+theorem loops_are_bounded : ∀ l ∈ Gen.converterLoops, l.2.1 = "range" ∨ l.2.1 = "count" := by decide
+
+/-- the table is about the functions the property names -/
+theorem loops_cover_converters :
+    ∀ f ∈ ["RawPanelASCIIstringsToInboundMessages", "InboundMessagesToRawPanelASCIIstrings",
+           "RawPanelASCIIstringsToOutboundMessages", "OutboundMessagesToRawPanelASCIIstrings", "ASCIIreader.Parse"],
+      f ∈ Gen.converterFunctions := by decide
+
+example : Gen.converterLoops ≠ [] := by decide
+
+-- ===== BEGIN shared-state block (no_shared_mutable_state, package_vars_known and their allow-lists) =====================
+-- Everything `Gen.*` below is regenerated from the Go sources on every run (extract/main.go, genShared): packages
+-- rawpanellib, gorwp, ibeam_lib_monogfx, topology.  The allow-lists are written here by hand: a new package-level cache
+-- (scratch slice, strings.Builder, sync.Map, map …), or a new way of using an existing variable (alias, copy / append
+-- destination, mutating method, address taken, passed to another function), makes one of the `decide`s below false.
+
+/-- type classes whose values can only be changed by an assignment (and assignments are all in `Gen.packageVarWrites`) -/
+def immutableClasses : List String := ["bool", "int", "float", "string"]
+
+/-- the package-level variables of a mutable / reference type class that exist in the pinned tree: the read-only tables, the
+    compiled regular expressions and the mutex of the debug dump -/
+def knownMutableVars : List String :=
+  ["ibeam_lib_monogfx.font", "ibeam_lib_monogfx.font_5x5", "ibeam_lib_monogfx.font_8x8",
+   "rawpanellib.icons8by8", "rawpanellib.lockGraphic", "rawpanellib.noAccessGraphic", "rawpanellib.speedGraphic",
+   "rawpanellib.ASCIIreader_gfx", "rawpanellib.regex_cmd", "rawpanellib.regex_cmd_inbound", "rawpanellib.regex_genericDual",
+   "rawpanellib.regex_genericSingle", "rawpanellib.regex_genericSingleStr", "rawpanellib.regex_genericSingle_inbound",
+   "rawpanellib.regex_gfx", "rawpanellib.regex_map", "rawpanellib.regex_registers", "rawpanellib.regex_registersOut",
+   "rawpanellib.DebugRWPhelpersMU"]
+
+/-- writes (`pkg.var@function[:form]`) to package-level variables that are accepted.  None: in the pinned tree no function
+    of the four scanned packages (and no package-level initialiser) writes to a package-level variable; `DebugRWPhelpers`
+    is only ever assigned by callers of the library. -/
+def allowedWrites : List String := []
+
+/-- (type class, kind): uses accepted for every variable of that type class -/
+def allowedUses : List (String × String) := [
+  -- *regexp.Regexp is documented "safe for concurrent use by multiple goroutines" (except configuration methods such as
+  -- Longest); these two methods only read the compiled program
+  ("regexp", "method:MatchString"), ("regexp", "method:FindStringSubmatch"),
+  -- taking / releasing a lock is what a mutex is for
+  ("mutex", "method:Lock"), ("mutex", "method:Unlock"), ("mutex", "method:RLock"), ("mutex", "method:RUnlock")]
+
+/-- (variable, kind): uses accepted for that variable only.  Each of them hands the table to other code, which is then
+    followed by the extractor (`Gen.sinks`) and judged by `allowedSinkUses`. -/
+def allowedVarUses : List (String × String) := [
+  -- MonoImg.SetFont: `img.font = font…` (the image keeps a reference to the font table; field `font` is followed)
+  ("ibeam_lib_monogfx.font", "alias:field:font"), ("ibeam_lib_monogfx.font_5x5", "alias:field:font"),
+  ("ibeam_lib_monogfx.font_8x8", "alias:field:font"),
+  -- WriteDisplayTileNew: `disp.DrawBitmap(x, y, <table>, …)` (parameter `bitmap` of MonoImg.DrawBitmap is followed)
+  ("rawpanellib.speedGraphic", "arg:DrawBitmap"), ("rawpanellib.lockGraphic", "arg:DrawBitmap"),
+  ("rawpanellib.noAccessGraphic", "arg:DrawBitmap"), ("rawpanellib.icons8by8", "arg:DrawBitmap")]
+
+/-- (sink, kind): accepted non-read uses of the places the tables are handed to -/
+def allowedSinkUses : List (String × String) := [
+  -- `img.font = …` re-binds the field of one image; it does not write into the table (that would be `write:elem`)
+  ("ibeam_lib_monogfx.(field)font", "write"),
+  -- `len(bitmap)`
+  ("ibeam_lib_monogfx.MonoImg.DrawBitmap#bitmap", "arg:len")]
+
+def classOf (v : String) : String := (Gen.packageVarTypes.lookup v).getD "?"
+
+def allowedUse (u : String × String × String) : Bool :=
+  allowedUses.contains (classOf u.1, u.2.2) || allowedVarUses.contains (u.1, u.2.2)
+
+def allowedSinkUse (u : String × String × String) : Bool := allowedSinkUses.contains (u.1, u.2.2)
+
+/-- 1. no write to a package-level variable outside `allowedWrites` (= none) -/
+theorem shared_writes_allowed : ∀ w ∈ Gen.packageVarWrites, w ∈ allowedWrites := by decide
+/-- 2. every use of a package-level variable that is not a pure read is on the allow-list -/
+theorem shared_uses_allowed : ∀ u ∈ Gen.packageVarUses, allowedUse u = true := by decide
+/-- 3. so is every non-read use of a parameter / field / local such a variable is handed to (followed to a fixpoint) -/
+theorem shared_sink_uses_allowed : ∀ u ∈ Gen.sinkUses, allowedSinkUse u = true := by decide
+/-- 4. every package-level variable is of an assignment-only type class, or one of the known tables / regexps / the mutex -/
+theorem shared_mutable_vars_known :
+    ∀ vt ∈ Gen.packageVarTypes, vt.2 ∈ immutableClasses ∨ vt.1 ∈ knownMutableVars := by decide
+/-- 5. every package-level variable has a type-class entry (the generated tables belong together) -/
+theorem shared_tables_consistent : ∀ v ∈ Gen.packageVars, (Gen.packageVarTypes.lookup v).isSome = true := by decide
+
+/-- No shared mutable state, over the tables regenerated from the Go sources on every run (1–5 above; stated separately so
+    that a failing build names the clause that broke). -/
+theorem no_shared_mutable_state :
+    (∀ w ∈ Gen.packageVarWrites, w ∈ allowedWrites) ∧
+    (∀ u ∈ Gen.packageVarUses, allowedUse u = true) ∧
+    (∀ u ∈ Gen.sinkUses, allowedSinkUse u = true) ∧
+    (∀ vt ∈ Gen.packageVarTypes, vt.2 ∈ immutableClasses ∨ vt.1 ∈ knownMutableVars) ∧
+    (∀ v ∈ Gen.packageVars, (Gen.packageVarTypes.lookup v).isSome = true) :=
+  ⟨shared_writes_allowed, shared_uses_allowed, shared_sink_uses_allowed, shared_mutable_vars_known, shared_tables_consistent⟩
+
+-- non-vacuity: the tables are not empty, allowed things are allowed, and the seeded forms are rejected
+example : Gen.packageVarUses ≠ [] ∧ Gen.sinks ≠ [] ∧ Gen.sinkUses ≠ [] ∧ Gen.packageVarTypes ≠ [] := by decide
+example : allowedUse ("rawpanellib.regex_cmd", "RawPanelASCIIstringsToInboundMessages", "method:MatchString") = true := by decide
+-- a new scratch slice used through an alias (seeded C06-1), a new strings.Builder (C06-6), a new sync.Map (C18-4)
+example : allowedUse ("rawpanellib.hwctFields", "InboundMessagesToRawPanelASCIIstrings", "alias:local:stringSlice") = false := by decide
+example : allowedUse ("rawpanellib.stripLineBreaksBuf", "stripLineBreaks", "method:WriteString") = false := by decide
+example : allowedUse ("ibeam_lib_monogfx.glyphWidths", "MonoImg.GetCharWidth", "method:Store") = false := by decide
+-- known variables used in a new way: alias, copy / append destination, address, configuration method of a regexp
+example : allowedUse ("rawpanellib.icons8by8", "WriteDisplayTileNew", "alias:local:s") = false := by decide
+example : allowedUse ("rawpanellib.icons8by8", "WriteDisplayTileNew", "copydst") = false := by decide
+example : allowedUse ("rawpanellib.lockGraphic", "WriteDisplayTileNew", "appenddst") = false := by decide
+example : allowedUse ("rawpanellib.lockGraphic", "WriteDisplayTileNew", "addr") = false := by decide
+example : allowedUse ("rawpanellib.regex_cmd", "RawPanelASCIIstringsToInboundMessages", "method:Longest") = false := by decide
+example : allowedSinkUse ("ibeam_lib_monogfx.(field)font", "MonoImg.RenderText", "write:elem") = false := by decide
+example : allowedSinkUse ("ibeam_lib_monogfx.MonoImg.DrawBitmap#bitmap", "MonoImg.DrawBitmap", "write:elem") = false := by decide
+example : ¬ ("rawpanellib.DebugRWPhelpers@SetDebug" ∈ allowedWrites) := by decide
+example : ¬ ("sync.Map" ∈ immutableClasses ∨ "ibeam_lib_monogfx.glyphWidths" ∈ knownMutableVars) := by decide
+
+/-- the package-level variables that exist are the read-only tables and the debug flag with its mutex
+    (gorwp and topology, scanned since the extractor covers all four library packages, declare none) -/
 theorem package_vars_known : ∀ v ∈ Gen.packageVars,
     v ∈ ["ibeam_lib_monogfx.font", "ibeam_lib_monogfx.font_5x5", "ibeam_lib_monogfx.font_8x8",
          "rawpanellib.ASCIIreader_gfx", "rawpanellib.DebugRWPhelpers", "rawpanellib.DebugRWPhelpersMU",
@@ -43,5 +232,6 @@ theorem package_vars_known : ∀ v ∈ Gen.packageVars,
          "rawpanellib.regex_genericSingle", "rawpanellib.regex_genericSingleStr", "rawpanellib.regex_genericSingle_inbound",
          "rawpanellib.regex_gfx", "rawpanellib.regex_map", "rawpanellib.regex_registers", "rawpanellib.regex_registersOut"] := by
   decide
+-- ===== END shared-state block ==========================================================================================
 
 end RawPanelVerif.C06
